@@ -41,6 +41,24 @@ COQ_RAW = {
 RAISED = {V_SKIP: {2, 3, 4}, V_KEEPSELF: {1}, V_SELECT: {1, 2}, V_STOP: {1, 2, 3, 5}}
 
 
+# node identities are allocation indices *relative to the case* (the model computes on unary
+# naturals: absolute indices of a long run would make every comparison cost thousands of steps)
+_BASE = [0]
+
+
+def nid(node) -> int:
+    k = H.nid(node)
+    return k - _BASE[0] if k > 0 else k
+
+
+def coq_rt(node, U) -> str:
+    return f"(Tz {nid(node)} {H.coq_info(node, U)} {H.coq_list(coq_rt(c, U) for c in (node._children or []))})"
+
+
+def coq_forest(root, U) -> str:
+    return H.coq_list(coq_rt(c, U) for c in (root._children or []))
+
+
 def univ_for(n):
     out = []
     for i in range(n):
@@ -53,7 +71,7 @@ def shape_shape(nodes):
 
 
 def ids_shape(children):
-    return [[H.nid(c), ids_shape(c._children or [])] for c in children]
+    return [[nid(c), ids_shape(c._children or [])] for c in children]
 
 
 class Prop:
@@ -160,13 +178,14 @@ class Prop:
 
     # ----- one case
     def run(self, desc) -> Case:
+        _BASE[0] = H.alloc_count()
         tree, U = B.build(dict(typed=False, univ=desc["univ"], nodes=desc["nodes"]))
         nodes = B.all_nodes(tree._root)
-        vd = {H.nid(n): (desc["verdicts"][k], desc["flavours"][k]) for k, n in enumerate(nodes)}
+        vd = {nid(n): (desc["verdicts"][k], desc["flavours"][k]) for k, n in enumerate(nodes)}
         start = None if desc["start"] is None else nodes[desc["start"]]
-        coq = (f"({H.coq_forest(tree._root, U)}, "
-               f"{H.coq_list(f'({H.nid(n)}, {COQ_RAW[vd[H.nid(n)][0]][vd[H.nid(n)][1]]})' for n in nodes)}, "
-               f"{'(@None Z)' if start is None else H.coq_opt(H.nid(start))})")
+        coq = (f"({coq_forest(tree._root, U)}, "
+               f"{H.coq_list(f'({nid(n)}, {COQ_RAW[vd[nid(n)][0]][vd[nid(n)][1]]})' for n in nodes)}, "
+               f"{'(@None Z)' if start is None else H.coq_opt(nid(start))})")
 
         # snapshot of the source by pointers, taken before anything runs
         snap = {id(n): list(n._children or []) for n in [tree._root] + nodes}
@@ -175,7 +194,7 @@ class Prop:
         log = []
 
         def pred(node):
-            k = H.nid(node)
+            k = nid(node)
             log.append(k)
             code, fl = vd[k]
             return FLAVOURS[code][fl]()
@@ -255,7 +274,7 @@ class Prop:
             return out
 
         def verdict(n):
-            return vd[H.nid(n)][0]
+            return vd[nid(n)][0]
 
         closed = (V_SKIP, V_KEEPSELF, V_SELECT)
         reached = [n for n in scope if not any(verdict(a) in closed for a in ancestors(n))]
@@ -274,7 +293,7 @@ class Prop:
         info = dict(scope=len(scope), kept=len(kept), stop_hit=bool(stops), d24=0)
 
         # every call of the predicate: the reached nodes up to and including the first stop
-        exp_calls = [H.nid(n) for n in reached if pos[id(n)] <= first_stop]
+        exp_calls = [nid(n) for n in reached if pos[id(n)] <= first_stop]
         for k, lg in enumerate(call_logs):
             if lg != exp_calls:
                 return f"calls: form {k} called the predicate on {lg}, expected {exp_calls}", None, info
@@ -283,7 +302,7 @@ class Prop:
         in_scope = {id(n) for n in scope}
 
         def exp_shape(p):
-            return [[H.nid(c), exp_shape(c)] for c in snap[id(p)] if id(c) not in in_scope or id(c) in kept]
+            return [[nid(c), exp_shape(c)] for c in snap[id(p)] if id(c) not in in_scope or id(c) in kept]
 
         exp_ip = exp_shape(root)
         if inplace != exp_ip:
@@ -293,7 +312,7 @@ class Prop:
             return f"in-place count: got {count} expected {exp_count}", None, info
 
         # copying forms leave the source untouched
-        if src_after != src_before or src_shape_after != [[H.nid(c), ids_shape_snap(c, snap)] for c in snap[id(root)]]:
+        if src_after != src_before or src_shape_after != [[nid(c), ids_shape_snap(c, snap)] for c in snap[id(root)]]:
             return "source changed by a copying form", None, info
 
         # copying forms: same result as in place, modulo node identity (data object, data_id, shape, order)
@@ -342,7 +361,7 @@ class Prop:
 
 
 def ids_shape_snap(n, snap):
-    return [[H.nid(c), ids_shape_snap(c, snap)] for c in snap[id(n)]]
+    return [[nid(c), ids_shape_snap(c, snap)] for c in snap[id(n)]]
 
 
 def count_nodes(o):
